@@ -11,3 +11,9 @@ PROP = dict(
             dict(kind="walk", name="defaults", module="MCCollectorDefaults", pkg="collect", test="TestVerifCollector", harness=["collect/collector_test.go"], cfg={"quick": "MC_Collector_defaults_q.cfg", "thorough": "MC_Collector_defaults.cfg"}, budget={"quick": 30, "thorough": 600}, maxwalk=40),
             dict(kind="walk", name="backlog", tiers=("thorough",), module="MCCollectorBacklog", pkg="collect", test="TestVerifCollector", harness=["collect/collector_test.go"], cfg={"quick": "MC_Collector_backlog_q.cfg", "thorough": "MC_Collector_backlog.cfg"}, budget={"quick": 30, "thorough": 600}, maxwalk=40)],
 )
+
+# coverage extension CX2 (lib/ext/CX2.py, DESIGN.md section 0.5): the trace buffer the decision timing rests on. TraceBuffer.tla models
+# DefaultInMemCache.TakeExpiredTraces operationally and checks it against the declarative contract (exactly the expired traces, earliest
+# SendBy first, at most max, removed exactly, none twice) - C03's "earliest deadline first, at most MaxExpiredTraces per tick" one level down.
+import extstages  # noqa: E402
+PROP["stages"] += extstages.pick("CX2", ["TraceBuffer", "TraceBuffer-4ids"])
